@@ -175,7 +175,7 @@ def check_pad(h, text, cells, kind, width, fill, inplace, extend, twin=False):
             r = getattr(vs, kind)(width, fill) if kind != 'zfill' else vs.zfill(width)
             if type(r) is not AnsiStr:
                 return [('pad-type', 'AnsiStr.%s returned %s' % (kind, type(r).__name__))]
-            r = r._s
+            r = model.content(r)
         elif kind == 'zfill':
             r = v.zfill(width, inplace=inplace)
         else:
